@@ -5,7 +5,8 @@ M: MC_HierarchyAlgo (the front end's algorithm, repaired and pinned design, mode
 G: HierarchyGen (every DAG-shaped hierarchy with <= N classes x flags x members x names x constructor styles)
 R: run_c05 (render -> run.load_model -> projection of the intermediate symbol table); also the repository's own
    meta-models (code -> spec), whose source hierarchy is read by an independent `ast` reader
-V: HierarchyTrace (one named TLC invariant per clause on every accepted observation), HierarchyKeys (fingerprints)
+V: HierarchyTrace (one named TLC invariant per clause -- per clause and source-level explanation for the
+   clauses about repeats -- on every accepted observation)
 """
 import concurrent.futures
 import hashlib
@@ -70,7 +71,9 @@ def run_r(ck, entries, tag):
 
 def run_v(ck, obs, chunk):
     """V: TLC checks every clause on every accepted observation.  Returns {index: [clause, ...]} and counters."""
-    parts = [(off, obs[off : off + chunk]) for off in range(0, len(obs), chunk)]
+    nchunks = max(1, (len(obs) + chunk - 1) // chunk)
+    size = (len(obs) + nchunks - 1) // nchunks
+    parts = [(off, obs[off : off + size]) for off in range(0, len(obs), size)]
     violated = {}
     counts = [0] * 7
 
@@ -137,24 +140,17 @@ def main() -> int:
     if bad:
         raise core.MachineryFailure("the independent reader of the source hierarchy disagrees with the generated case (renderer or reader wrong): %s" % bad[0]["extract_diff"][:600])
     # V
-    violated, counts = run_v(ck, obs, 6000 if ck.quick else 9000)
+    violated, counts = run_v(ck, obs, 2500 if ck.quick else 8000)
     n_obs, n_acc, n_nontrivial, n_diamond, n_exp_refused, n_refused_but_accepted, n_ok_but_refused = counts
-    # fingerprints, computed by the spec
-    if violated:
-        idxs = sorted(violated)
-        kp, ko = ck.work / "viol.json", ck.work / "keys.json"
-        kp.write_text(json.dumps([{"h": obs[i]["h"], "o": obs[i]["o"], "clauses": violated[i]} for i in idxs], separators=(",", ":")))
-        ck.tlc("HierarchyKeys", what="V: structural fingerprints of the violations", env={"VERIF_OBS": str(kp), "VERIF_OUT": str(ko)}, count=False, timeout=1500)
-        keys = core.read_json(ko)
-        for i, ks in zip(idxs, keys):
-            r = obs[i]
-            e = entries[i]
-            for k in ks:
-                if not k["confirmed"]:
-                    raise core.MachineryFailure("HierarchyKeys does not confirm the violation of %s on record %d" % (k["clause"], i))
-                key = {"clause": k["clause"], "explained_by": k["explained_by"], "kind": "cprim" if all(x == "cprim" for x in r["h"]["kind"]) else "class"}
-                case = {"entry": e, "h": r["h"], "names": r["names"], "text": hier.render_case(e["case"]) if "case" in e else e.get("path")}
-                ck.violation(key, k["clause"], case, r["o"], detail="%s part=%s diamond=%s bases=%s" % (r["src"] or "generated", r["part"], k["diamond"], r["h"]["bases"]))
+    # one violation per (observation, clause); the fingerprint <clause>__<explanation> is the name of the
+    # invariant TLC found violated (computed by the spec: Hierarchy!Explanation)
+    for i in sorted(violated):
+        r, e = obs[i], entries[i]
+        for inv in violated[i]:
+            clause, _, expl = inv.partition("__")
+            key = {"clause": clause, "explained_by": expl or "none", "kind": "cprim" if all(x == "cprim" for x in r["h"]["kind"]) else "class"}
+            case = {"entry": e, "h": r["h"], "names": r["names"], "text": hier.render_case(e["case"]) if "case" in e else e.get("path")}
+            ck.violation(key, clause, case, r["o"], detail="%s part=%s bases=%s" % (r["src"] or "generated", r["part"], r["h"]["bases"] if r["h"]["n"] <= 8 else "(%d types)" % r["h"]["n"]))
     # evidence
     ck.cov["evaluations"] = n_obs
     ck.cov["traces_validated_against_impl"] = n_acc
